@@ -10,6 +10,7 @@ use std::cell::UnsafeCell;
 use std::collections::{BTreeMap, BTreeSet, VecDeque};
 
 pub const BLOCKED: u32 = 0xffff_ffff;
+pub const MAX_COPY_LENGTH: usize = (1 << 28) - 1;
 pub const COMPLETED: u32 = 0;
 pub const DROPPED: u32 = 1;
 pub const CANCELLED: u32 = 2;
@@ -114,6 +115,10 @@ pub struct Shared {
     pub unit_wakeup_of: Option<usize>,
     /// last code handed to the guest per direction (survives the end)
     pub last_code: [Option<u32>; 2],
+    /// a `stream<()>` whose host peer takes or supplies any number of (zero-sized) items at
+    /// once: the probe for the largest length one copy may have
+    pub bulk_unit: bool,
+    pub bulk_total: u64,
 }
 
 #[derive(Debug, Clone, Copy, PartialEq)]
@@ -494,6 +499,8 @@ impl Host {
             host_queue: VecDeque::new(),
             unit_wakeup_of: None,
             last_code: [None, None],
+            bulk_unit: false,
+            bulk_total: 0,
         });
         let creator = self.cur();
         let mk = |dir| {
@@ -627,8 +634,26 @@ impl Host {
         if st != CopyState::Idle {
             self.violate("T-BUSY", what, format!("{what}({h}) on an end in state {st:?} (a copy is in progress, or the end was already told its peer dropped)"));
         }
+        // canonical ABI: the length of one stream copy is at most 2^28 - 1 (it has to fit the
+        // 28 bits a result code has for the progress), anything larger traps
+        if kind == Kind::Stream && len > MAX_COPY_LENGTH {
+            self.violate("T-LEN", what, format!("{what}({h}): a copy of {len} items was requested; the largest length one copy may have is 2^28 - 1 = {MAX_COPY_LENGTH}"));
+        }
         let sz = elem_size(elem);
         self.check_buf(what, h, ptr, len * sz);
+        if self.shared[s].bulk_unit {
+            self.seq += 1;
+            self.end_mut(h).ops_started += 1;
+            self.shared[s].bulk_total += len as u64;
+            let code = Self::pack(kind, Res::Completed, len);
+            let e = self.end_mut(h);
+            e.reported_total += len as u64;
+            e.xfer_total += len as u64;
+            e.last_code = Some(code);
+            self.shared[s].last_code[dir as usize] = Some(code);
+            tr!(self, "{what}({h}, len={len}) -> Completed({len}) immediately (bulk unit stream)");
+            return code;
+        }
         self.seq += 1;
         self.end_mut(h).ops_started += 1;
         self.note(2, kind as u32 * 2 + dir as u32);
